@@ -1959,7 +1959,7 @@ struct TemplateCore {
         while (offset < end_offset) {
             switch (content[offset]) {
                 case QOperationSymbol::OrExp: { // ||
-                    if (content[(offset + 1)] == QOperationSymbol::OrExp) {
+                    if (((offset + SizeT{1}) < end_offset) && (content[(offset + SizeT{1})] == QOperationSymbol::OrExp)) {
                         return QOperation::Or;
                     }
 
@@ -1967,7 +1967,7 @@ struct TemplateCore {
                 }
 
                 case QOperationSymbol::AndExp: { // &&
-                    if (content[(offset + 1)] == QOperationSymbol::AndExp) {
+                    if (((offset + SizeT{1}) < end_offset) && (content[(offset + SizeT{1})] == QOperationSymbol::AndExp)) {
                         return QOperation::And;
                     }
 
@@ -1975,7 +1975,7 @@ struct TemplateCore {
                 }
 
                 case QOperationSymbol::GreaterExp: { // > or >=
-                    if (content[(offset + 1)] == QOperationSymbol::EqualExp) {
+                    if (((offset + SizeT{1}) < end_offset) && (content[(offset + SizeT{1})] == QOperationSymbol::EqualExp)) {
                         return QOperation::GreaterOrEqual;
                     }
 
@@ -1983,7 +1983,7 @@ struct TemplateCore {
                 }
 
                 case QOperationSymbol::LessExp: { // < or <=
-                    if (content[(offset + 1)] == QOperationSymbol::EqualExp) {
+                    if (((offset + SizeT{1}) < end_offset) && (content[(offset + SizeT{1})] == QOperationSymbol::EqualExp)) {
                         return QOperation::LessOrEqual;
                     }
 
@@ -1991,7 +1991,7 @@ struct TemplateCore {
                 }
 
                 case QOperationSymbol::NotExp: { // !=
-                    if (content[(offset + 1)] == QOperationSymbol::EqualExp) {
+                    if (((offset + SizeT{1}) < end_offset) && (content[(offset + SizeT{1})] == QOperationSymbol::EqualExp)) {
                         return QOperation::NotEqual;
                     }
 
@@ -1999,7 +1999,7 @@ struct TemplateCore {
                 }
 
                 case QOperationSymbol::EqualExp: { // ==
-                    if (content[(offset + 1)] == QOperationSymbol::EqualExp) {
+                    if (((offset + SizeT{1}) < end_offset) && (content[(offset + SizeT{1})] == QOperationSymbol::EqualExp)) {
                         return QOperation::Equal;
                     }
 
